@@ -691,7 +691,7 @@ IIV_CUSTOM = [
     ('eta_new**2 + eta_new', lambda e: e * e + e, 'sum'),
 ]
 IIV_FORMS = ['add', 'prop', 'exp', 'exp', 'log', 're_log'] + [f'custom{i}' for i in range(len(IIV_CUSTOM))]
-VAR_EXTS = ['add_iiv'] * 5 + ['add_pk_iiv'] * 2 + ['add_iov'] * 3 + ['boxcox', 'tdist', 'john_draper'] * 2 + ['allometry'] * 3
+VAR_EXTS = ['add_iiv'] * 5 + ['add_iiv_list'] * 3 + ['add_pk_iiv'] * 2 + ['add_iov'] * 3 + ['boxcox', 'tdist', 'john_draper'] * 2 + ['allometry'] * 3
 VAR_PRIORS = ['none', 'none', 'remove_iiv', 'remove_iiv', 'remove_iiv_all', 'cov_exp', 'boxcox', 'fo_abs', 'peripheral', 'iov', 'allometry', 'add_iiv_prop', 'transit2', 'tdist1', 'john_draper1']
 IOV_DIST = ['disjoint', 'joint', 'same-as-iiv', 'disjoint']
 REFVALS = [70, 40, 1.5, '3.5', 'GC2']
@@ -771,7 +771,7 @@ def run_variability(spec):
     # the prior's parameter is preferred (so that it carries the prior's structure), else any
     par = ppar if (ppar in pars and spec['par2'] % 2 == 0) else pars[spec['par2'] % len(pars)]
     p1 = base_point(m1, k, r)
-    fn = dict(add_iiv=_var_add_iiv, add_pk_iiv=_var_add_pk_iiv, add_iov=_var_add_iov, boxcox=_var_transform, tdist=_var_transform,
+    fn = dict(add_iiv=_var_add_iiv, add_iiv_list=_var_add_iiv_list, add_pk_iiv=_var_add_pk_iiv, add_iov=_var_add_iov, boxcox=_var_transform, tdist=_var_transform,
               john_draper=_var_transform, allometry=_var_allometry)[ext]
     head = f'{mid} gen={gen} prior={prior}({ppar})'
     classes, key, detail, evals = fn(spec, mid, gen, m1, p1, par, pars, head, ext)
@@ -836,6 +836,58 @@ def _var_add_iiv(spec, mid, gen, m1, p1, par, pars, head, ext):
     same_function(m1, p1, m3, p3, names=[par], clause=f'iiv:remove-restores:{form if custom is None else "custom"}', detail=detail + f' then remove_iiv({eta!r})')
     evals += 1
     return classes, f'add_iiv|{par}|{form}|{op}|{bool(kwargs)}', detail, evals
+
+
+def _var_add_iiv_list(spec, mid, gen, m1, p1, par, pars, head, ext):
+    """one add_iiv call with lists (2-3 parameters, per-parameter expression / operation / eta name, unequal entries) must be
+    the same model function as the single-parameter calls one after the other (each of which is checked against the
+    documented formula by _var_add_iiv)"""
+    mm = M()
+    k = spec['k']
+    rvn = set(m1.random_variables.names)
+    free = [p for p in pars if f'IIV_{p}' not in m1.parameters.names and f'ETA_{p}' not in rvn]
+    if len(free) < 2:
+        raise Reject('fewer than two parameters free for add_iiv')
+    n = 2 + (spec['how'] % 2 if len(free) >= 3 else 0)
+    start = spec['par2'] % len(free)
+    plist = [free[(start + i) % len(free)] for i in range(n)]
+    sel = spec['etas']
+    forms, ops, args = [], [], []
+    for i in range(n):
+        form = IIV_FORMS[(spec['form'] + i * (1 + sel % 5)) % len(IIV_FORMS)]
+        if form == 're_log':
+            form = 'prop'
+        forms.append(form)
+        args.append(IIV_CUSTOM[int(form[6:])][0] if form.startswith('custom') else form)
+        ops.append('*+'[(spec['op'] + i + (sel >> i)) % 2])
+    # argument shapes: lists everywhere / one expression for all / one operation for all
+    shape = spec['dist'] % 4
+    expr_arg = args if shape != 1 else args[0]
+    op_arg = ops if shape != 2 else ops[0]
+    if shape == 1:
+        args = [args[0]] * n
+    if shape == 2:
+        ops = [ops[0]] * n
+    kwargs = {}
+    if shape == 3:
+        kwargs['eta_names'] = [f'ETA_L{i + 1}_{p}' for i, p in enumerate(plist)]
+    detail = f'{head}: add_iiv({plist!r}, {expr_arg!r}, {op_arg!r}{", eta_names=" + repr(kwargs["eta_names"]) if kwargs else ""})'
+    m2 = call(mm.add_iiv, m1, plist, expr_arg, op_arg, clause='add_iiv', **kwargs)
+    ms = m1
+    for i, p in enumerate(plist):
+        kw = dict(eta_names=[kwargs['eta_names'][i]]) if kwargs else {}
+        ms = call(mm.add_iiv, ms, p, args[i], ops[i], clause='add_iiv(single)', **kw)
+    new2 = new_names(m2.random_variables.etas.names, m1.random_variables.etas.names)
+    news = new_names(ms.random_variables.etas.names, m1.random_variables.etas.names)
+    if sorted(new2) != sorted(news):
+        raise Violation('iiv-list:eta-names', observed=new2, expected=news, detail=detail)
+    ev_ = {e: _gval(i + 5, k, -0.5, 0.5) for i, e in enumerate(sorted(new2))}
+    p2 = extend_point(m2, p1, k, new_etas=ev_)
+    ps = extend_point(ms, p1, k, new_etas=ev_)
+    same_function(ms, ps, m2, p2, names=assigned_before_odes(m1), clause='iiv-list:differs-from-single-calls', detail=detail)
+    unequal = len(set(ops)) > 1
+    classes = [f'n_params={n}', f'shape={shape}', 'ops-unequal' if unequal else 'ops-equal', 'forms-unequal' if len(set(args)) > 1 else 'forms-equal']
+    return classes, f'add_iiv_list|{plist}|{args}|{ops}|{shape}', detail, 2
 
 
 def _var_add_pk_iiv(spec, mid, gen, m1, p1, par, pars, head, ext):
@@ -1202,15 +1254,82 @@ def check_blq_self(m2, p2, yname, method, lloq, detail, clause):
 
 
 def run_error(spec):
-    mm = M()
     mid = resolve_model(spec['m'])
     gen = spec['gen'] % NGEN
     ext = ERR_EXTS[spec['ext'] % len(ERR_EXTS)]
     prior = ERR_PRIORS[spec['prior'] % len(ERR_PRIORS)]
-    k, r = spec['k'], spec['r']
     pars0 = individual_parameters(mid, gen)
     cont, _ = covariate_columns(mid, gen)
     m1 = get_prior(mid, gen, prior, pars0[0] if pars0 else '', cont[0])
+    info, _ = _error_on(m1, mid, gen, prior, ext, spec)
+    return info
+
+
+MULTIDV_EXTS = ['additive', 'proportional', 'proportional_nozp', 'combined', 'additive', 'proportional', 'combined', 'power', 'iiv_on_ruv', 'time_varying',
+                'additive_log', 'weighted', 'thetas']
+
+MDV_STEP = st.fixed_dictionaries(dict(ext=idx(len(MULTIDV_EXTS)), dv=idx(3), eps=st.integers(0, 7), same=idx(2), cut=idx(len(CUTOFFS)), lloq=idx(len(LLOQS))))
+MDV_SPEC = st.fixed_dictionaries(dict(gen=idx(NGEN), steps=st.lists(MDV_STEP, min_size=2, max_size=3), k=st.integers(0, 30), r=st.integers(0, 400)))
+
+
+@functools.lru_cache(maxsize=None)
+def multidv_models():
+    """start models with >= 2 dependent variables"""
+    out = []
+    for n in model_names():
+        try:
+            if len(corpus.get(n).dependent_variables) > 1:
+                out.append(n)
+        except Exception:
+            continue
+    return tuple(out)
+
+
+def run_error_multidv(spec):
+    """error-model setters applied to the DVs of a multi-DV model one after the other: every step must give the
+    documented form on its DV and leave the other DVs alone"""
+    mids = multidv_models()
+    if not mids:
+        raise Reject('no multi-DV model in the corpus')
+    gen = spec['gen'] % NGEN
+    mid = mids[spec['r'] % len(mids)]
+    m = start_model(mid, gen)
+    prior = 'none'
+    seen_log = False
+    classes, renders, evals, keys = [], [], 0, []
+    steps = spec['steps'][:3]
+    if not steps:
+        raise Reject('no steps')
+    for j, stp in enumerate(steps):
+        ext = MULTIDV_EXTS[stp['ext'] % len(MULTIDV_EXTS)]
+        sp = dict(stp, k=spec['k'], r=spec['r'])
+        try:
+            info, m2 = _error_on(m, mid, gen, prior, ext, sp)
+        except Reject as rj:
+            if j == 0:
+                raise
+            raise Reject(f'step{j + 1}:{rj.why}')
+        except Violation as v:
+            v.detail = f'step {j + 1} after {renders}: {v.detail}'
+            raise
+        classes += [c for c in info.classes if not c.startswith('prior=')] + [f'step{j + 1}-dv={stp["dv"] % 3}']
+        renders.append(info.render['case'].split(': ', 1)[-1])
+        keys.append(info.key.split('|', 3)[-1])
+        evals += info.evals
+        m = m2
+        # the label by which the next step sees this one (special structures the setters keep)
+        seen_log = seen_log or '_log' in ext
+        base = prior.replace('+_log', '')
+        prior = ext if ext in ('iiv_on_ruv', 'time_varying') else (base if base in ('iiv_on_ruv', 'time_varying') else f'seq-{ext}')
+        if seen_log and '_log' not in prior:
+            prior += '+_log'  # a log-scale step happened before: f is on the log scale from now on
+    return CaseInfo(nontrivial=True, classes=tuple(classes), key=f'{mid}|{gen}|' + '>'.join(keys), render=dict(case=f'{mid} gen={gen}: ' + ' ; '.join(renders)), evals=evals)
+
+
+def _error_on(m1, mid, gen, prior, ext, spec):
+    """one error-model extension on model m1 (label `prior` = how m1 was made) -> (CaseInfo, model after)"""
+    mm = M()
+    k, r = spec['k'], spec['r']
     dvs = [str(d) for d in m1.dependent_variables.keys()]
     dvids = list(m1.dependent_variables.values())
     dvarg = None
@@ -1267,7 +1386,7 @@ def run_error(spec):
         c2 = eps_coefficients(m2, p2, yname)
         act = {e: c for e, c in c2.items() if c != 0.0}
         evals += 2
-        special = kind == 'combined' and (prior in ('iiv_on_ruv', 'time_varying'))
+        special = kind == 'combined' and (prior.replace('+_log', '') in ('iiv_on_ruv', 'time_varying'))
         if special:
             classes.append('combined-keeps-structure(undocumented)')
         else:
@@ -1283,14 +1402,14 @@ def run_error(spec):
             lin = y0 + sum(act[e] * full[e] for e in act)
             if not close(yf, lin, rtol=1e-8):
                 raise Violation(f'error:{kind}:not-affine-in-eps', observed=yf, expected=lin, detail=detail)
-            if not log and not blq_prior:
+            if not log and not blq_prior and '_log' not in prior:  # detectors are documented for untransformed data only
                 dets = dict(additive=mm.has_additive_error_model, proportional=mm.has_proportional_error_model, combined=mm.has_combined_error_model)
                 for dk, dfn in dets.items():
                     got = call(dfn, m2, dvarg, clause=f'has_{dk}_error_model')
                     want = dk == kind
                     # additive and proportional coincide when f == 1; a combined model is neither
                     if bool(got) != want:
-                        dtag = '[after-time-varying]' if prior == 'time_varying' else ''
+                        dtag = '[after-time-varying]' if prior.startswith('time_varying') else ''
                         raise Violation(f'error:detector{dtag}:has_{dk}:after-set_{kind}', observed=bool(got), expected=want, detail=detail)
                 classes.append('detectors')
         if blq_prior and not special and not log:
@@ -1393,7 +1512,7 @@ def run_error(spec):
         # attribution tags (evidence based: the name tag only when the named epsilon was really not found, i.e. no theta
         # was created for it)
         tag = '[eps-name-not-uppercase]' if (lst and lst[0] != lst[0].upper() and not th) else ''
-        if not tag and prior == 'time_varying':
+        if not tag and prior.startswith('time_varying'):
             tag = '[after-time-varying]'
         if not tag and _guard_not_in_y(m1, yname):
             tag = '[zero-protection-symbol-not-in-Y]'
@@ -1470,6 +1589,7 @@ def run_error(spec):
 
     elif ext == 'thetas':
         detail = f'{head}: use_thetas_for_error_stdev()'
+        wtag = '[weighted-model-with-several-dvs]' if len(dvs) > 1 and m1.statements.find_assignment('W') is not None else ''
         m2 = call(mm.use_thetas_for_error_stdev, m1, clause='use_thetas_for_error_stdev')
         th = new_names(m2.parameters.names, m1.parameters.names)
         epsn = list(p1.eps)
@@ -1489,7 +1609,7 @@ def run_error(spec):
                     good = perm
                     break
             if good is None:
-                raise Violation('error:thetas:formula', observed=b, expected=a, detail=f'{detail}; {dn} with theta*eps substituted in the model before; thetas {tv}')
+                raise Violation(f'error:thetas{wtag}:formula', observed=b, expected=a, detail=f'{detail}; {dn} with theta*eps substituted in the model before; thetas {tv}')
             if dn == yname:
                 ok = good
         # variance bookkeeping: sigma fixed to 1, theta initial estimate = sqrt(previous variance)
@@ -1521,7 +1641,7 @@ def run_error(spec):
 
     classes.append(f'eps_before={min(n_act1, 3)}')
     nt = prior != 'none' or n_act1 != 1
-    return CaseInfo(nontrivial=nt, classes=tuple(classes), key=f'{mid}|{gen}|{prior}|{key}', render=dict(case=detail, coefficients_before=c1), evals=evals)
+    return CaseInfo(nontrivial=nt, classes=tuple(classes), key=f'{mid}|{gen}|{prior}|{key}', render=dict(case=detail, coefficients_before=c1), evals=evals), m2
 
 
 # ================================================================================================
@@ -1726,9 +1846,34 @@ def selfcheck():
         raise HarnessError('empty corpus')
 
 
+def _enum_variability(tier):
+    """deterministic list-argument cases: add_iiv with 2-3 parameters and unequal operations / expressions"""
+    exti = VAR_EXTS.index('add_iiv_list')
+    base = dict(m='pheno_real', gen=0, prior=0, ext=exti, par=0, par2=0, form=0, op=0, etas=0, occ=0, dist=0, how=0, cov=0, ref=0, k=1, r=3)
+    for m in ('pheno_real', 'pheno_conc', 'mox_2comp', 'pheno'):
+        if m not in model_names():
+            continue
+        for form in (IIV_FORMS.index('exp'), IIV_FORMS.index('custom1'), IIV_FORMS.index('add')):
+            for op in (0, 1):
+                for shape in (0, 1, 2, 3):
+                    for etas in (0, 1):
+                        yield dict(base, m=m, prior=VAR_PRIORS.index('remove_iiv_all') if m == 'pheno' else 0, form=form, op=op, dist=shape, etas=etas, how=etas)
+
+
+def _enum_multidv(tier):
+    """every ordered pair of basic setters applied to the two DVs one after the other"""
+    basic = [MULTIDV_EXTS.index(x) for x in ('additive', 'proportional', 'proportional_nozp', 'combined')]
+    for a in basic:
+        for b in basic:
+            for dva, dvb in ((1, 2), (2, 1), (0, 2)):
+                st_ = dict(eps=0, same=0, cut=0, lloq=0)
+                yield dict(gen=0, steps=[dict(st_, ext=a, dv=dva), dict(st_, ext=b, dv=dvb)], k=2, r=0)
+
+
 SUBCHECKS = [
     SubCheck('covariate', lambda: COV_SPEC, run_covariate, quick=400, thorough=12000),
-    SubCheck('variability', lambda: VAR_SPEC, run_variability, quick=700, thorough=15000),
-    SubCheck('error', lambda: ERR_SPEC, run_error, quick=600, thorough=15000),
+    SubCheck('variability', lambda: VAR_SPEC, run_variability, quick=700, thorough=15000, enumerate=_enum_variability),
+    SubCheck('error', lambda: ERR_SPEC, run_error, quick=550, thorough=15000),
+    SubCheck('error_multidv', lambda: MDV_SPEC, run_error_multidv, quick=150, thorough=4000, enumerate=_enum_multidv),
     SubCheck('transit_absorption', lambda: ABS_SPEC, run_transit_absorption, quick=300, thorough=8000),
 ]
